@@ -449,11 +449,13 @@ fn leaf_slice_casts_are_identity() {
 // ---------------------------------------------------------------------------------------------- std shims (bounded)
 // R9 shim `slice_rposition` = `s.iter().rposition(p)`: last index whose byte satisfies p, with the trimming predicate of the
 // header routine; bounded: slices of at most 6 bytes
+// (the bound RPOS_N and the unwinding limit RPOS_N + 2 are rewritten by tools/kani_run.py: 6 in the quick tier, 24 in the thorough tier)
+const RPOS_N: usize = 6;
 #[kani::proof]
 #[kani::unwind(8)]
 fn leaf_rposition_shim() {
-    let arr: [u8; 6] = kani::any();
-    let len: usize = kani::any_where(|l: &usize| *l <= 6);
+    let arr: [u8; RPOS_N] = kani::any();
+    let len: usize = kani::any_where(|l: &usize| *l <= RPOS_N);
     let s = &arr[..len];
     let p = |b: &u8| *b != b' ' && *b != b'\t' && *b != b'\r' && *b != b'\n';
     let r = s.iter().rposition(p);
@@ -491,11 +493,13 @@ fn t37_valid(s: &[u8]) -> bool {
     }
     true
 }
+// (UTF8_N / its unwinding limit UTF8_N + 2: 4 in the quick tier, 6 in the thorough tier)
+const UTF8_N: usize = 4;
 #[kani::proof]
 #[kani::unwind(6)]
 fn leaf_from_utf8_is_table_3_7() {
-    let arr: [u8; 4] = kani::any();
-    let len: usize = kani::any_where(|l: &usize| *l <= 4);
+    let arr: [u8; UTF8_N] = kani::any();
+    let len: usize = kani::any_where(|l: &usize| *l <= UTF8_N);
     let s = &arr[..len];
     let r = core::str::from_utf8(s);
     assert_eq!(r.is_ok(), t37_valid(s));
